@@ -5,7 +5,19 @@ SLOAD = '<server::streaming::streams::storage::FileStreamStorage as server::stre
 TLOAD = '<server::streaming::topics::storage::FileTopicStorage as server::streaming::storage::TopicStorage>::load'
 NAME = 'directory entries are created by the server itself with ASCII numeric names; a crash cannot alter a name'
 FS = 'metadata/exists/remove of an entry that was just listed: fails only on a concurrent external deletion or I/O error, not on a crash image'
+CIC = 'server::streaming::topics::topic::Topic::cache_integrity_check'
+_NE = 'after the `cache.is_empty()` early return: len >= 1'
+_LOOP = 'loop variable of `for i in 1..cache.len()`: 1 <= i < len'
 PANICS = {
+    CIC: {   # runs at start-up when the cache is enabled (cache warm-up), on messages just read from disk
+        'assert_bounds (0 < len(cache))': _NE,
+        'assert_overflow:Sub ([T]::len(cache) - 1)': _NE,
+        'assert_bounds (([T]::len(cache) - 1) < len(cache))': _NE,
+        'assert_bounds (::next(::into_iter(…)) < len(cache))': _LOOP,
+        'assert_overflow:Sub (::next(::into_iter(…)) - 1)': _LOOP,
+        'assert_bounds ((::next(::into_iter(…)) - 1) < len(cache))': _LOOP,
+        'assert_overflow:Sub (cache[([T]::len(cache) - 1)].offset - cache[0].offset)': 'the loop just above returned false unless every offset is its predecessor + 1, so last >= first',
+    },
     LOAD: {
         'unwrap DirEntry::metadata(Result::unwrap_or(…))': FS,
         'unwrap OsString::into_string(DirEntry::file_name(…))': NAME,
@@ -76,4 +88,5 @@ STARTUP_FNS = [LOAD, 'server::streaming::segments::segment::Segment::load_from_d
                'server::compat::index_rebuilding::index_rebuilder::IndexRebuilder::rebuild', 'server::compat::index_rebuilding::index_rebuilder::IndexRebuilder::write_index_entry',
                'server::compat::index_rebuilding::index_rebuilder::IndexRebuilder::read_batch_header',
                'server::streaming::systems::system::System::init', 'server::streaming::systems::system::System::load_streams', 'server::streaming::systems::system::System::load_version',
-               'server::streaming::systems::system::System::load_users', SLOAD, TLOAD]
+               'server::streaming::systems::system::System::load_users', SLOAD, TLOAD, CIC,
+               'server::streaming::topics::topic::Topic::load_messages_from_disk_to_cache']
